@@ -6,20 +6,31 @@ sys.path.insert(0, ROOT)
 from vlib import props
 
 HOOK_COMMITS = ["5faa070"]
+FIX_COMMITS = ["5ce47be", "5913455"]
 LEVEL_TEXT = {
  "C07": ("TLC checks the colour formula's lemmas (within 1 of the real-valued formula, monotone, alpha) for all 2^24 "
          "triples on Yuv.tla, and validates the real converter's output against Yuv!Pixel for all 65536 chroma pairs x "
          "32 luma values (quick) / all 2^24 triples (thorough, exhaustive).", "5 C07"),
  "C08": ("TLC recomputes every pixel of every picture size in a dense range from Yuv!Convert (pairing definition model-"
          "checked in MCYuvPairing) and compares with the bytes returned by the real converter.", "5 C08"),
+ "C09": ("TLC checks the Annex J kernel lemmas (range, direction and inversion symmetry, identities, change bounds) over "
+         "27^4 stratified quadruples x 12 strengths and the edge-schedule lemmas for all sizes <= 48 on Deblock.tla, and "
+         "replays every recorded deblock() call as the two Annex J passes, comparing every output sample.", "5 C09"),
+ "C16": ("Exhaustive over widths x heights (from 0 rows) x 12 strengths: every recorded call must return and equal "
+         "Deblock!DeblockImage as recomputed by TLC; the published strength table is compared with Table J.2 "
+         "transcribed in the specification.", "5 C16"),
 }
 NOTE = {
+ "C09": "Trusted: TLC's evaluator. The 2^32 x 12 kernel domain is covered by stratified quadruples (10^4 quick / 16^4 thorough) placed in vector and scalar lanes, not exhaustively.",
+ "C16": "Trusted: TLC's evaluator; bounded size range (24x24 quick, 48x48 thorough).",
  "C07": "Trusted: TLC's evaluator; the driver's packing of RGBA into one integer. Inputs are 4x1 pictures (vector body).",
  "C08": "Trusted: TLC's evaluator; plane contents are seeded random bytes (arbitrary content has no structure to enumerate).",
 }
 TECH = {
  "C07": "TLA+ spec (Yuv.tla) model-checked exhaustively with TLC + trace validation of recorded conversions",
  "C08": "TLA+ spec (Yuv.tla) + TLC trace validation of recorded conversions over a dense size range",
+ "C09": "TLA+ spec (Deblock.tla) model-checked with TLC + staged trace validation (horizontal pass, vertical pass, compare)",
+ "C16": "TLA+ spec (Deblock.tla) + exhaustive size x strength sweep validated by TLC",
 }
 ALL = ["C%02d" % i for i in range(1, 18)]
 checks, na = [], []
